@@ -69,9 +69,17 @@ extern "C" void c05_mt_long()
   reduction_rule rr = vp_nondet_bool() ? reduction_rule::FULLY_REDUCED : reduction_rule::QUASI_REDUCED;
   forest* fa = forest_record(false, range_type::INTEGER, edge_labeling::MULTI_TERMINAL, rr, edge_type::VOID, terminal_type::INTEGER);
   forest* fb = fa; forest* fc = fa;
-  long va = vp_nondet_i64(), vb = vp_nondet_i64();
-  vp_assume(va >= TMIN && va <= TMAX && vb >= TMIN && vb <= TMAX);
-  node_handle a = fa->handleForValue(va), b = fb->handleForValue(vb);
+  // operands are arbitrary valid integer terminal handles (0, or sign bit set and not the
+  // non-canonical 0x80000000); their values are read with the forest's own decoder, so the
+  // specification and the implementation start from syntactically identical operand terms
+  node_handle a = vp_nondet_i32(), b = vp_nondet_i32();
+  vp_assume((a == 0 || a < 0) && a != (node_handle) 0x80000000 && (b == 0 || b < 0) && b != (node_handle) 0x80000000);
+  long va, vb; fa->getValueFromHandle(a, va); fb->getValueFromHandle(b, vb);
+  vp_assert(va >= TMIN && va <= TMAX && fa->handleForValue(va) == a, "handle decodes to an in-range value and re-encodes to itself");
+#ifdef VBITS
+  // stated bound for operations whose 64-bit circuit does not finish at full width
+  vp_assume(va >= -(1L << (VBITS-1)) && va < (1L << (VBITS-1)) && vb >= -(1L << (VBITS-1)) && vb < (1L << (VBITS-1)));
+#endif
   node_handle c = 777;
   int rc = do_apply< POL<long> >(fa, a, fb, b, fc, c);
   long expect; bool valid = spec_long(va, vb, expect);
@@ -91,7 +99,8 @@ extern "C" void c05_mt_long()
   node_handle a2 = a, b2 = b;
   if (POL<long>::simplifiesToFirstArg(0, fa, a2, fb, b)) {
     vp_cover(4);
-    vp_assert(rc == 0 && c == a, "simplifiesToFirstArg implies apply(a,b) == a");
+    if (valid) vp_assert(rc == 0 && c == a, "simplifiesToFirstArg implies apply(a,b) == a");
+    else vp_assert(0, "short cut 'result is the first argument' fires where the scalar case is invalid (division by zero must raise)");
   }
   a2 = a; b2 = b;
   if (POL<long>::simplifiesToSecondArg(0, fa, a, fb, b2)) {
@@ -103,16 +112,19 @@ extern "C" void c05_mt_long()
 #if OP != 5 && OP != 6 && OP != 7   /* max/min/distmin copy the argument through the COPY operation */
     edge_value cv; node_handle ce = 777;
     POL<long>::makeEqualResult(0, 0, fa, a, fc, cv, ce, nullptr);
-    vp_assert(rc == 0 && ce == c, "x op x short cut (makeEqualResult) equals apply(x,x)");
+    if (valid) vp_assert(rc == 0 && ce == c, "x op x short cut (makeEqualResult) equals apply(x,x)");
+    else vp_assert(0, "short cut 'x op x' returns a value where the scalar case is invalid (division by zero must raise)");
 #else
     vp_assert(rc == 0 && c == a, "x op x == x for max/min/distmin");
 #endif
   }
+#ifndef NO_COMMUTE
   if (POL<long>::commutes()) {
     node_handle d = 777;
     int rc2 = do_apply< POL<long> >(fb, b, fa, a, fc, d);
     vp_assert(rc2 == rc && (rc != 0 || d == c), "commutes() implies apply(a,b) == apply(b,a)");
   }
+#endif
   vp_reach();
 }
 
@@ -140,11 +152,13 @@ extern "C" void c05_mt_real()
   forest* fa = forest_record(false, range_type::REAL, edge_labeling::MULTI_TERMINAL, reduction_rule::FULLY_REDUCED, edge_type::VOID, terminal_type::REAL);
   forest* fb = fa; forest* fc = fa;
   // operands are terminals, i.e. floats that already went through the handle encoding
-  unsigned ua = vp_nondet_u32(), ub = vp_nondet_u32();
-  vp_assume(!is_nan_bits(ua) && !is_nan_bits(ub) && !is_inf_bits(ua) && !is_inf_bits(ub));
-  union { unsigned u; float f; } x, y; x.u = ua; y.u = ub;
-  node_handle a = fa->handleForValue(x.f), b = fb->handleForValue(y.f);
+  node_handle a = vp_nondet_i32(), b = vp_nondet_i32();
+  vp_assume((a == 0 || a < 0) && a != (node_handle) 0x80000000 && (b == 0 || b < 0) && b != (node_handle) 0x80000000);
   float va, vb; fa->getValueFromHandle(a, va); fb->getValueFromHandle(b, vb);
+  unsigned ua = vp_f32_bits(va), ub = vp_f32_bits(vb);
+  vp_assume(!is_nan_bits(ua) && !is_nan_bits(ub) && !is_inf_bits(ua) && !is_inf_bits(ub));
+  // handles produced by the encoder never decode to zero (fixed defect, see known_findings.txt)
+  vp_assume((a == 0) == (va == 0) && (b == 0) == (vb == 0));
   node_handle c = 777;
   int rc = do_apply< POL<float> >(fa, a, fb, b, fc, c);
   float expect; bool valid = spec_float(va, vb, expect);
@@ -160,14 +174,19 @@ extern "C" void c05_mt_real()
     }
   }
   node_handle a2 = a, b2 = b;
-  if (POL<float>::simplifiesToFirstArg(0, fa, a2, fb, b)) { vp_cover(4); vp_assert(rc == 0 && c == a, "simplifiesToFirstArg implies apply(a,b) == a (real)"); }
+  if (POL<float>::simplifiesToFirstArg(0, fa, a2, fb, b)) {
+    vp_cover(4);
+    if (valid) vp_assert(rc == 0 && c == a, "simplifiesToFirstArg implies apply(a,b) == a (real)");
+    else vp_assert(0, "short cut 'result is the first argument' fires where the scalar case is invalid (division by zero must raise)");
+  }
   if (POL<float>::simplifiesToSecondArg(0, fa, a, fb, b2)) { vp_cover(5); vp_assert(rc == 0 && c == b, "simplifiesToSecondArg implies apply(a,b) == b (real)"); }
   if (POL<float>::stopOnEqualArgs() && a == b) {
     vp_cover(6);
 #if OP != 5 && OP != 6 && OP != 7
     edge_value cv; node_handle ce = 777;
     POL<float>::makeEqualResult(0, 0, fa, a, fc, cv, ce, nullptr);
-    vp_assert(rc == 0 && ce == c, "x op x short cut equals apply(x,x) (real)");
+    if (valid) vp_assert(rc == 0 && ce == c, "x op x short cut equals apply(x,x) (real)");
+    else vp_assert(0, "short cut 'x op x' returns a value where the scalar case is invalid (division by zero must raise)");
 #else
     vp_assert(rc == 0 && c == a, "x op x == x for max/min/distmin (real)");
 #endif
